@@ -4,6 +4,7 @@ package main
 
 import (
 	"fmt"
+	"go/constant"
 	"go/token"
 	"go/types"
 	"sort"
@@ -63,6 +64,9 @@ func (fr *Frame) callStatic(fn *ssa.Function, args []Val, st *State, pos token.P
 	if m, ok := models[full]; ok {
 		return m(fr, args, st, pos)
 	}
+	if m, ok := extraModels[full]; ok {
+		return m(fr, args, st, pos)
+	}
 	if fn.Pkg == L.SSA || (fn.Parent() != nil && fn.Parent().Pkg == L.SSA) {
 		rel := relFuncName(fn)
 		ct := L.CF.Contracts[rel]
@@ -74,6 +78,17 @@ func (fr *Frame) callStatic(fn *ssa.Function, args []Val, st *State, pos token.P
 		}
 		return fr.inlineCall(fn, args, nil, st, pos)
 	}
+	// assumed contract of an external function: `//@ func ext:pkg.Func[/DynamicType]`
+	if key, ct := fr.extContract(fn, site); ct != nil {
+		sig := fn.Signature
+		var recv Term
+		cargs := args
+		if sig.Recv() != nil {
+			recv = args[0].T
+			cargs = args[1:]
+		}
+		return fr.callIfaceContract(site, key, 4, ct, sig, recv, cargs, st)
+	}
 	// Go-level model function in /verif/models: model_<pkg>_<Name>
 	if mf := L.modelFunc(fn); mf != nil {
 		vc.assumptions["model:"+full] = true
@@ -81,6 +96,24 @@ func (fr *Frame) callStatic(fn *ssa.Function, args []Val, st *State, pos token.P
 	}
 	fail("%s: call of %s has no contract or model", vc.posOf(pos), full)
 	return Val{}, nil
+}
+
+// extContract finds `ext:<func>/<dynamic type of the first interface argument>` or `ext:<func>`.
+func (fr *Frame) extContract(fn *ssa.Function, site ssa.CallInstruction) (string, *Contract) {
+	name := fn.String()
+	cf := fr.vc.L.CF
+	if site != nil {
+		for _, a := range site.Common().Args {
+			if mi, ok := a.(*ssa.MakeInterface); ok {
+				k := "ext:" + name + "/" + shortTypeName(mi.X.Type())
+				if ct := cf.Contracts[k]; ct != nil {
+					return k, ct
+				}
+			}
+		}
+	}
+	k := "ext:" + name
+	return k, cf.Contracts[k]
 }
 
 func (L *Loaded) modelFunc(fn *ssa.Function) *ssa.Function {
@@ -92,6 +125,39 @@ func (L *Loaded) modelFunc(fn *ssa.Function) *ssa.Function {
 // inlining
 
 func (fr *Frame) inlineCall(fn *ssa.Function, args []Val, bindings []Val, st *State, pos token.Pos) (Val, *State) {
+	v, s, _ := fr.inlineCallF(fn, args, bindings, st, pos, nil)
+	return v, s
+}
+
+// quantBody evaluates a quantifier body closure. The evaluation is recorded
+// per call site, so that a second evaluation of the same clause in the
+// post-state finds the pre-state values of the body (old(e) inside bodies).
+func (fr *Frame) quantBody(site ssa.Instruction, clo *Closure, srt Sort, st *State, pos token.Pos) (Term, Val) {
+	vc := fr.vc
+	var bv Term
+	var oldVals map[ssa.Value]Val
+	var oldSub map[ssa.Instruction]*quantRecT
+	if rec, ok := fr.oldQuant[site]; ok {
+		bv = rec.bv
+		oldVals = rec.vals
+		oldSub = rec.sub
+	} else {
+		vc.fresh++
+		bv = Term{S: fmt.Sprintf("k!%d", vc.fresh), Sort: srt}
+	}
+	res, _, sub := fr.inlineCallQ(clo.Fn, []Val{TV(bv)}, clo.Bindings, st.Clone(), pos, oldVals, oldSub)
+	if fr.quantRec == nil {
+		fr.quantRec = map[ssa.Instruction]*quantRecT{}
+	}
+	fr.quantRec[site] = &quantRecT{bv: bv, vals: sub.vals, sub: sub.quantRec}
+	return bv, res
+}
+
+func (fr *Frame) inlineCallF(fn *ssa.Function, args []Val, bindings []Val, st *State, pos token.Pos, oldVals map[ssa.Value]Val) (Val, *State, *Frame) {
+	return fr.inlineCallQ(fn, args, bindings, st, pos, oldVals, nil)
+}
+
+func (fr *Frame) inlineCallQ(fn *ssa.Function, args []Val, bindings []Val, st *State, pos token.Pos, oldVals map[ssa.Value]Val, oldQuant map[ssa.Instruction]*quantRecT) (Val, *State, *Frame) {
 	vc := fr.vc
 	if fn.Blocks == nil {
 		fail("%s: cannot inline %s (no body)", vc.posOf(pos), fn)
@@ -105,6 +171,10 @@ func (fr *Frame) inlineCall(fn *ssa.Function, args []Val, bindings []Val, st *St
 		vc.inlined[relFuncName(fn)] = true
 	}
 	sub := vc.newFrame(fn, fr)
+	if oldVals != nil {
+		sub.oldVals = oldVals
+		sub.oldQuant = oldQuant
+	}
 	for i, p := range fn.Params {
 		sub.vals[p] = args[i]
 	}
@@ -119,9 +189,9 @@ func (fr *Frame) inlineCall(fn *ssa.Function, args []Val, bindings []Val, st *St
 		fr.raise(p.st, p.val, pos, "panic in "+relFuncName(fn))
 	}
 	if out == nil {
-		return Val{}, nil
+		return Val{}, nil, sub
 	}
-	return res, out
+	return res, out, sub
 }
 
 // run executes the whole function and merges its normal exits.
@@ -176,10 +246,17 @@ func (sub *Frame) run(st *State) (Val, *State) {
 
 // evalPure evaluates a loop-free boolean/valued function symbolically in state st.
 func (fr *Frame) evalPure(fn *ssa.Function, args []Val, st *State, oldVals map[ssa.Value]Val) (Val, *Frame) {
+	return fr.evalPureOld(fn, args, st, oldVals, nil)
+}
+
+func (fr *Frame) evalPureOld(fn *ssa.Function, args []Val, st *State, oldVals map[ssa.Value]Val, oldFrame *Frame) (Val, *Frame) {
 	vc := fr.vc
 	sub := vc.newFrame(fn, fr)
 	sub.pure = true
 	sub.oldVals = oldVals
+	if oldFrame != nil {
+		sub.oldQuant = oldFrame.quantRec
+	}
 	for i, p := range fn.Params {
 		sub.vals[p] = args[i]
 	}
@@ -200,6 +277,7 @@ func (fr *Frame) evalClauseWith(cl *Clause, lookup func(cp ClauseParam, old bool
 		fail("clause function %s missing", cl.GoName)
 	}
 	var oldVals map[ssa.Value]Val
+	var oldFrame *Frame
 	if cl.HasOld {
 		if oldSt == nil {
 			oldSt = st
@@ -210,12 +288,13 @@ func (fr *Frame) evalClauseWith(cl *Clause, lookup func(cp ClauseParam, old bool
 		}
 		_, of := fr.evalPure(fn, oargs, oldSt, nil)
 		oldVals = of.allVals()
+		oldFrame = of
 	}
 	var args []Val
 	for _, cp := range cl.Params {
 		args = append(args, lookup(cp, false))
 	}
-	res, _ := fr.evalPure(fn, args, st, oldVals)
+	res, _ := fr.evalPureOld(fn, args, st, oldVals, oldFrame)
 	return vc.Define("cl."+cl.Label, res.T)
 }
 
@@ -376,6 +455,15 @@ func (vc *VC) specHeaps(fn *ssa.Function) []string {
 					}
 				case ssa.CallInstruction:
 					if c := x.Common().StaticCallee(); c != nil {
+						if on := originName(c); (on == "ghostInt" || on == "ghostIface") && vc.L.IsSpecFunc(c) {
+							if nm, ok := constString(x.Common().Args[0]); ok {
+								if on == "ghostInt" {
+									heaps["$g."+nm] = Sort("(Array Ptr Int)")
+								} else {
+									heaps["$g."+nm] = Sort("(Array Ptr Iface)")
+								}
+							}
+						}
 						if vc.L.IsSpecFunc(c) {
 							for _, g := range intrinsicGhosts(originName(c)) {
 								heaps[g.name] = g.sort
@@ -385,6 +473,10 @@ func (vc *VC) specHeaps(fn *ssa.Function) []string {
 							visit(c)
 						} else if mf := vc.L.modelFunc(c); mf != nil {
 							visit(mf)
+						} else {
+							for n, srt := range vc.modelReadHeaps(c.String()) {
+								heaps[n] = srt
+							}
 						}
 					}
 				}
@@ -520,10 +612,17 @@ type ghostRef struct {
 
 func intrinsicGhosts(name string) []ghostRef {
 	switch name {
-	case "traceLen", "traceIs", "traceEvent":
+	case "calls":
 		return []ghostRef{{"$trace", STrace}}
 	}
 	return nil
+}
+
+func constString(v ssa.Value) (string, bool) {
+	if c, ok := v.(*ssa.Const); ok && c.Value != nil && c.Value.Kind() == constant.String {
+		return constant.StringVal(c.Value), true
+	}
+	return "", false
 }
 
 func (fr *Frame) intrinsic(fn *ssa.Function, args []Val, st *State, pos token.Pos, site ssa.CallInstruction) (Val, bool) {
@@ -554,10 +653,8 @@ func (fr *Frame) intrinsic(fn *ssa.Function, args []Val, st *State, pos token.Po
 		if clo == nil {
 			fail("%s: quantifier body must be a function literal", vc.posOf(pos))
 		}
-		vc.fresh++
-		bv := Term{S: fmt.Sprintf("k!%d", vc.fresh), Sort: SInt}
 		vc.pushScope()
-		res, _ := fr.inlineCall(clo.Fn, []Val{TV(bv)}, clo.Bindings, st.Clone(), pos)
+		bv, res := fr.quantBody(site.(ssa.Instruction), clo, SInt, st, pos)
 		body := vc.popScope(res.T)
 		rng := And(Le(lo, bv), Lt(bv, hi))
 		pats := vc.pickPatterns(body.S, bv.S)
@@ -577,10 +674,8 @@ func (fr *Frame) intrinsic(fn *ssa.Function, args []Val, st *State, pos token.Po
 		if strings.HasSuffix(name, "Int") {
 			srt = SInt
 		}
-		vc.fresh++
-		bv := Term{S: fmt.Sprintf("q!%d", vc.fresh), Sort: srt}
 		vc.pushScope()
-		res, _ := fr.inlineCall(clo.Fn, []Val{TV(bv)}, clo.Bindings, st.Clone(), pos)
+		bv, res := fr.quantBody(site.(ssa.Instruction), clo, srt, st, pos)
 		body := vc.popScope(res.T)
 		q := "forall"
 		if strings.HasPrefix(name, "exists") {
@@ -602,6 +697,23 @@ func (fr *Frame) intrinsic(fn *ssa.Function, args []Val, st *State, pos token.Po
 			fail("fresh() of sort %s", a.Sort)
 		}
 		return TV(Le(vc.alloc0, arr)), true
+	case "calls":
+		return TV(vc.ghost(st, "$trace", STrace)), true
+	case "traceCall":
+		return TV(App(STrace, "tsnoc", args[0].T, args[1].T, asPtr(args[2]), asPtr(args[3]), asPtr(args[4]))), true
+	case "ghostInt", "ghostIface":
+		nm, ok := constString(site.Common().Args[0])
+		if !ok {
+			fail("%s: ghost field name must be a constant string", vc.posOf(pos))
+		}
+		vs := SInt
+		if name == "ghostIface" {
+			vs = SIface
+		}
+		g := vc.ghost(st, "$g."+nm, Sort("(Array Ptr "+string(vs)+")"))
+		return TV(Sel(g, asPtr(args[1]), vs)), true
+	case "same":
+		return TV(Eq(args[0].T, args[1].T)), true
 	case "sameSlice":
 		return TV(Eq(args[0].T, args[1].T)), true
 	case "sameArray":
@@ -750,6 +862,10 @@ type modItem struct {
 	elems    bool  // all elements of a slice's backing array
 	slice    Term
 	ghost    string
+	mapType  *types.Map
+	cb       bool
+	cbType   types.Type
+	headers  bool
 }
 
 func (fr *Frame) callContract(fn *ssa.Function, ct *Contract, args []Val, st *State, pos token.Pos) (Val, *State) {
@@ -855,6 +971,9 @@ func (fr *Frame) modItems(ct *Contract, lookup func(cp ClauseParam, old bool) Va
 				continue
 			case "nothing":
 				continue
+			case "headers":
+				items = append(items, modItem{headers: true})
+				continue
 			}
 			fn := vc.L.SSA.Func(it.goName)
 			if fn == nil {
@@ -889,6 +1008,12 @@ func (fr *Frame) modItems(ct *Contract, lookup func(cp ClauseParam, old bool) Va
 			case "elems":
 				et := rt.Underlying().(*types.Slice).Elem()
 				items = append(items, modItem{heapType: et, elems: true, slice: res.T})
+			case "cb":
+				items = append(items, modItem{cb: true, ptr: res.T, cbType: rt})
+			case "map":
+				mt := rt.Underlying().(*types.Map)
+				name, _ := vc.mapHeap(mt)
+				items = append(items, modItem{ghost: "map:" + name, ptr: res.T, mapType: mt})
 			}
 		}
 	}
@@ -899,6 +1024,23 @@ func (fr *Frame) havocItems(st *State, items []modItem, pos token.Pos) {
 	vc := fr.vc
 	for _, it := range items {
 		switch {
+		case it.cb:
+			st.Assume(Not(Eq(PArr(it.ptr), IntLit(0))))
+			fr.havocCallbackObject(it.cbType, it.ptr, st)
+			continue
+		case it.headers:
+			fr.havocCallbackGhost(st)
+			continue
+		case it.mapType != nil:
+			name, hs, ms, _, _ := vc.mapParts(it.mapType)
+			h := vc.heapFor(st, name, hs)
+			nv := vc.Fresh("hv.map", ms)
+			st.Assume(Le(IntLit(0), App(SInt, "msize."+string(ms), nv)))
+			st.heaps[name] = vc.Define(name, Sto(h, it.ptr, nv))
+			if !vc.noFrame && vc.dry == 0 {
+				vc.safeCount["frame"]++
+				vc.Oblige("frame", "mapcall#"+itoa(vc.safeCount["frame"]), pos, st, fr.mapFrameGoal(name, it.ptr), "callee may modify a map outside this function's frame ("+name+")")
+			}
 		case it.ghost != "":
 			srt, ok := vc.heapSorts[it.ghost]
 			if !ok {
@@ -932,7 +1074,7 @@ func (fr *Frame) havocItems(st *State, items []modItem, pos token.Pos) {
 			vc.heapStoreRaw(st, it.heapType, it.ptr, nv)
 		}
 		// the caller's own frame must allow these writes
-		if it.ghost == "" {
+		if it.plain() {
 			fr.frameCheckItem(st, it, pos)
 		}
 	}
@@ -942,6 +1084,13 @@ func ghostSort(name string) Sort {
 	switch name {
 	case "$trace":
 		return STrace
+	}
+	if strings.HasPrefix(name, "$g.") {
+		switch name {
+		case "$g.lasterr":
+			return Sort("(Array Ptr Iface)")
+		}
+		return Sort("(Array Ptr Int)")
 	}
 	return SInt
 }
